@@ -32,6 +32,9 @@ TIERS = {'quick': ['merge3', 'deep4', 'shapes', 'mlist4', 'reuse3'],
          'thorough': ['merge3w', 'deep4v', 'shapesw', 'deep5']}
 
 KEYTXT = {'k1': '1', 'k1f': '1.0', 'k2': 'b', 'M': '<<', 'Q': '"<<"', 'U': '? []'}
+# the class U (a key node that becomes an unhashable Python object) has one representative per collection type a key node can
+# be built to: list, dict, set, the two list-of-pairs types; the representative is picked per occurrence
+UREPS = ['? []', '? {}', '? !!set {}', '? !!omap []', '? !!pairs []', '? !!set {z: }', '? [z]']
 VALTXT = {'v1': 'x', 'v2': 'y'}
 
 
@@ -75,7 +78,8 @@ def print_doc(nodes, top):
         s = '&n%d ' % i if refs[i] > 1 else ''
         if n['t'] == 'map':
             s += {'map': '', 'set': '!!set ', 'omap': '!!omap ', 'pairs': '!!pairs '}[n['tag']]
-            s += '{' + ', '.join('%s: %s' % (KEYTXT[e['k']], pv(e['v'])) for e in n['e']) + '}'
+            s += '{' + ', '.join('%s: %s' % (UREPS[(i * 3 + j + len(nodes) + SEED) % len(UREPS)] if e['k'] == 'U' else KEYTXT[e['k']], pv(e['v']))
+                                  for j, e in enumerate(n['e'])) + '}'
         else:
             s += {'seq': '', 'set': '!!set ', 'omap': '!!omap ', 'pairs': '!!pairs '}[n['tag']]
             s += '[' + ', '.join(pv(e) for e in n['e']) + ']'
@@ -90,7 +94,7 @@ def keyclass(k):
         return 'k2'
     if k == '<<':
         return 'Q'
-    if k == []:
+    if type(k) in (list, dict, set):
         return 'U'
     return '?%r' % (k,)
 
